@@ -321,6 +321,87 @@ func (l *lst) OnConnected()            { l.connected++ }
 func (l *lst) OnEvent(s *types.Status) { l.events++ }
 func (l *lst) OnError(err error) bool  { l.errors++; return true }
 
+// comboScenario: one client listens for events while a second thread runs discovery and a third a
+// directed call through the same client; the listener is stopped half-way. Everybody gets exactly
+// their own: the listener the two events, discovery the three controllers, the call its own reply.
+func comboScenario(path string, bind uint16, bound int) e1.Scenario {
+	var l *lst
+	var ret error
+	var returned bool
+	var devs []map[string]any
+	var devErr error
+	var obs spec.Observed
+	args := argsFor("GetCardByID", 0)
+	body := func() {
+		l = &lst{}
+		returned, devs, devErr = false, nil, nil
+		cur := l
+		f := &farm.Farm{}
+		for i := range ctrls {
+			i := i
+			f.Controllers = append(f.Controllers, farm.Echo(ctrls[i].ip+":60000", ctrls[i].serial, func(req []byte) time.Duration {
+				if req[1] == 0x94 {
+					return []time.Duration{T / 5, 9 * T / 10, T / 2}[i]
+				}
+				return 4 * T / 10
+			}))
+		}
+		vs.Net().Env = f
+		devices := []uhppote.Device{}
+		if path != "broadcast" {
+			devices = append(devices, uhppote.Device{DeviceID: ctrls[0].serial, Address: types.ControllerAddrFrom(netip.MustParseAddr(ctrls[0].ip), 60000), Protocol: path})
+		}
+		b := types.BindAddr{}
+		if bind != 0 {
+			b = types.BindAddrFrom(netip.MustParseAddr("0.0.0.0"), bind)
+		}
+		u := uhppote.NewUHPPOTE(b, types.BroadcastAddrFrom(netip.MustParseAddr("192.168.1.255"), 60000), types.ListenAddrFrom(netip.MustParseAddr("0.0.0.0"), 60002), T, devices, false)
+		ev := spec.EncodeMessage(0x17, 0x20, ctrls[1].serial, spec.StatusReply, ops.BaselineReply(spec.OpByName("GetStatus")))
+		for k := 1; k <= 2; k++ {
+			vs.After(time.Duration(3*k)*T/10, func() { vs.Net().DeliverUDP("192.168.1.101:60000", "192.168.1.2:60002", ev) })
+		}
+		q := make(chan os.Signal, 1)
+		vs.GoNamed("stopper", func() {
+			vs.Sleep(7 * T / 10)
+			vs.Send(q, os.Signal(os.Interrupt))
+		})
+		vs.GoNamed("discovery", func() { devs, devErr = ops.InvokeGetDevices(u) })
+		vs.GoNamed("caller", func() { obs = ops.Invoke(u, "GetCardByID", ctrls[0].serial, args) })
+		ret = u.Listen(cur, q)
+		returned = true
+	}
+	check := func(e *vs.Exec) (string, []e1.Viol) {
+		viols := e1.Generic(e)
+		for _, r := range e.Races {
+			viols = append(viols, e1.Viol{Key: raceKey(r), What: "data race: " + r})
+		}
+		if e.Abort != "" {
+			return e.Abort, viols
+		}
+		if !returned || ret != nil {
+			viols = append(viols, e1.Viol{Key: "combo/listen-did-not-return-nil", What: fmt.Sprintf("returned=%v err=%v", returned, ret)})
+		}
+		if l.connected != 1 || l.events != 2 || l.errors != 0 {
+			viols = append(viols, e1.Viol{Key: "combo/listener-saw-something-else", What: fmt.Sprintf("connected=%d events=%d errors=%d; two events were sent to the listen port before the stop signal and nothing else", l.connected, l.events, l.errors)})
+		}
+		if devErr != nil || len(devs) != 3 {
+			viols = append(viols, e1.Viol{Key: "combo/discovery", What: fmt.Sprintf("GetDevices alongside the listener and a call: %d entries, err %v; three controllers answer within the timeout", len(devs), devErr)})
+		}
+		op := spec.OpByName("GetCardByID")
+		reply := farm.EchoReply(ctrls[0].serial, spec.EncodeRequest(op, ctrls[0].serial, args))
+		if obs.Err != nil {
+			viols = append(viols, e1.Viol{Key: "combo/own-reply-lost/" + path, What: fmt.Sprintf("the call failed although its controller answers 0.4 T after being asked: %v", obs.Err)})
+		} else if v := spec.Judge(spec.ExpectReply(op, ctrls[0].serial, args, reply), obs); v.Class != "" {
+			viols = append(viols, e1.Viol{Key: "combo/crossed-reply/" + path, What: v.Detail})
+		}
+		if open := vs.Net().OpenSockets(); len(open) > 0 {
+			viols = append(viols, e1.Viol{Key: "combo/socket-left-open", What: fmt.Sprint(open)})
+		}
+		return fmt.Sprintf("combo events=%d devices=%d call=%v", l.events, len(devs), obs.Err == nil), viols
+	}
+	return e1.Scenario{Name: fmt.Sprintf("listen+discovery+call/%s/bind=%d", path, bind), Bound: bound, Body: body, Check: check}
+}
+
 func listenScenario(stopAt time.Duration, bound int) e1.Scenario {
 	var l *lst
 	var ret error
@@ -585,6 +666,16 @@ func main() {
 		}
 		scenarios = append(scenarios, callScenario(fmt.Sprintf("discovery-alone/bind=%d", bind), bind, nil, bound, true))
 	}
+	// listener, discovery and a directed call at the same time through one client
+	for _, bind := range []uint16{0, 60001} {
+		for _, p := range paths {
+			b := 1
+			if r.Thorough() {
+				b = 2
+			}
+			scenarios = append(scenarios, comboScenario(p, bind, b))
+		}
+	}
 	// the listener while it is being shut down
 	for _, at := range []time.Duration{0, T / 10, 15 * T / 100, 2 * T / 10, 3 * T / 10} {
 		scenarios = append(scenarios, listenScenario(at, bound))
@@ -597,7 +688,7 @@ func main() {
 	if r.Worker == "" && r.Replay == "" {
 		racePass(r)
 	}
-	r.Rule("2 (thorough also 3) harness threads x {bind port 0, fixed} x {one shared client, two clients (also: same fixed port on the wildcard and on a specific local address)} x {same, different controller} x paths {udp,tcp,broadcast}^2 x reply delays {0,0.4T,0.8T}^2 x start offset {0,0.3T} x 3 operation pairs; every one of the 31 directed operations concurrently with itself and with PutCard (<= 1 preemption; quick: connected-UDP path only); a failing call (silent controller, stalled / refused / reset TCP) followed by and concurrent with calls that must succeed; three staggered calls on one fixed port; discovery alongside a directed call; Listen with two events and the stop signal at 5 offsets; two threads x two sequential calls; for each scenario ALL interleavings with <= 2 preemptions (thorough: the two-call scenarios under ALL interleavings without bound, three-call families with <= 3 preemptions). distinct = distinct per-call outcome labels observed")
+	r.Rule("2 (thorough also 3) harness threads x {bind port 0, fixed} x {one shared client, two clients (also: same fixed port on the wildcard and on a specific local address)} x {same, different controller} x paths {udp,tcp,broadcast}^2 x reply delays {0,0.4T,0.8T}^2 x start offset {0,0.3T} x 3 operation pairs; every one of the 31 directed operations concurrently with itself and with PutCard (<= 1 preemption; quick: connected-UDP path only); a failing call (silent controller, stalled / refused / reset TCP) followed by and concurrent with calls that must succeed; three staggered calls on one fixed port; discovery alongside a directed call; the listener, discovery and a directed call at once through one client; Listen with two events and the stop signal at 5 offsets; two threads x two sequential calls; for each scenario ALL interleavings with <= 2 preemptions (thorough: the two-call scenarios under ALL interleavings without bound, three-call families with <= 3 preemptions). distinct = distinct per-call outcome labels observed")
 	r.Assume("sequentially consistent memory; scheduling points at mutex, channel, socket and sleep operations; unsynchronised accesses to locals shared with goroutine closures and to package-level variables of every package of the module (uhppote, types, messages, encoding/*) are caught by the vector-clock detector; struct fields and heap objects reached through pointers only by the free-running -race pass")
 	r.Assume("the simulated network orders consecutive operations on one socket (fd mutex atomics), as the real net package does")
 	r.Finish()
